@@ -632,6 +632,62 @@ func init() {
 			r, _ := fr.i.statusOfError(a[0])
 			return r
 		},
+		// errors.As / errors.Is walk the Unwrap chain; the library versions go through reflection
+		"errors.As": func(fr *frame, a []value) value {
+			tgt, ok := a[1].(iface)
+			if !ok || tgt.t == nil {
+				panic(targetPanic{"errors: target cannot be nil"})
+			}
+			pt, ok := tgt.t.Underlying().(*types.Pointer)
+			if !ok {
+				panic(targetPanic{"errors: target must be a non-nil pointer"})
+			}
+			elem := pt.Elem()
+			cur, _ := a[0].(iface)
+			for depth := 0; cur.t != nil && depth < 16; depth++ {
+				match := false
+				if it, isIface := elem.Underlying().(*types.Interface); isIface {
+					match = types.Implements(cur.t, it)
+				} else {
+					match = types.Identical(cur.t, elem)
+				}
+				if match {
+					cell := tgt.v.(*value)
+					if _, isIface := elem.Underlying().(*types.Interface); isIface {
+						*cell = cur
+					} else {
+						*cell = cur.v
+					}
+					return true
+				}
+				next, ok := fr.i.unwrapError(fr, cur)
+				if !ok {
+					break
+				}
+				cur = next
+			}
+			return false
+		},
+		"errors.Is": func(fr *frame, a []value) value {
+			cur, _ := a[0].(iface)
+			target, _ := a[1].(iface)
+			for depth := 0; depth < 16; depth++ {
+				if cur.t == nil {
+					return target.t == nil
+				}
+				if target.t != nil && types.Identical(cur.t, target.t) {
+					if _, isPtr := cur.t.Underlying().(*types.Pointer); isPtr && cur.v == target.v {
+						return true
+					}
+				}
+				next, ok := fr.i.unwrapError(fr, cur)
+				if !ok {
+					break
+				}
+				cur = next
+			}
+			return false
+		},
 	} {
 		stubs[k] = v
 	}
@@ -841,3 +897,18 @@ func intrinsicCatchFatal(i *interpreter, a []value) (res value) {
 }
 
 func init() { intrinsics["verifCatchFatal"] = intrinsicCatchFatal }
+
+
+// unwrapError calls err.Unwrap() error when the dynamic type has such a method.
+func (i *interpreter) unwrapError(fr *frame, err iface) (iface, bool) {
+	fn := i.prog.LookupMethod(err.t, nil, "Unwrap")
+	if fn == nil || fn.Signature.Results().Len() != 1 {
+		return iface{}, false
+	}
+	if _, isIface := fn.Signature.Results().At(0).Type().Underlying().(*types.Interface); !isIface {
+		return iface{}, false
+	}
+	r := call(i, fr, token.NoPos, fn, []value{err.v})
+	next, ok := r.(iface)
+	return next, ok && next.t != nil
+}
